@@ -34,6 +34,7 @@ DISTINCT_CAP_SHARD = 300_000
 DISTINCT_CAP_TOTAL = 4_000_000
 MAX_VIOLATION_KEYS = 40
 SAMPLES_CAP = 6
+MAX_VIOLATION_LINES = 8
 
 
 class CaseTimeout(BaseException):
@@ -354,7 +355,10 @@ def main(argv=None):
     for v in seen_known:
         lines.append(f"KNOWN-FINDING: property={prop} {v['key']} ({known[v['key']]}; seen {v['count']}x)")
     replays = []
-    for v in new:
+    for i, v in enumerate(sorted(new, key=lambda v: -v["count"])):
+        if i >= MAX_VIOLATION_LINES:
+            lines.append(f"  ... and {len(new) - i} more violating mechanisms (see evidence new_violation_keys)")
+            break
         path = _write_replay(prop, v, tier, seed)
         replays.append(path)
         lines.append(f"VIOLATION property={prop} replay={path}")
